@@ -39,6 +39,8 @@ def refresh_dealer(sess, suite, kps, pkp, remaining, rp):
     r = sess.call("refresh_compute %s pkp=%s ids=%s tape=%s" % (suite, pkp, ",".join(remaining), sess.tape(2048)), EXACT, "refresh_compute")
     if not sess.oracle(r.ok, "compute_refreshing_shares failed (%s)" % r.raw, rp()):
         return None
+    # documented contract: the refreshing shares come back in the order of the identifier list given (they are handed out by position)
+    sess.oracle([ss_fields(s)["id"] for s in recs(r["shares"])] == list(remaining), "compute_refreshing_shares did not return the shares in the order of the given identifier list", rp())
     shares = {ss_fields(s)["id"]: s for s in recs(r["shares"])}
     new = {}
     for i in remaining:
@@ -125,6 +127,40 @@ def one(sess, suite, n, t, rsize, proc, reps=1):
     sess.count("proc:" + proc)
     sess.count("n,t,|R|=%d,%d,%d" % (n, t, rsize))
     sess.case("%s|%s|%s|%s|%d" % (suite, pkp, proc, ",".join(cur_ids), reps), sample={"suite": suite, "n": n, "t": t, "R": cur_ids, "proc": proc, "reps": reps})
+
+
+def rejoin(sess, suite):
+    """a participant that a previous refresh removed (or an outsider) takes part in a distributed refresh: refused"""
+    rng = sess.rng
+    fld = Fld(suite)
+    start = len(sess.records)
+    rp = lambda: [x[0] for x in sess.records[start:]][:60]
+    ids = make_ids(sess, suite, 4, rng.choice(["default", "u16", "scalar"]))
+    r, shares, pkp = dealer(sess, suite, 4, 2, ids)
+    kps = keypkgs(sess, suite, shares)
+    gone = rng.choice(ids)
+    remaining = [i for i in ids if i != gone]
+    rng.shuffle(remaining)
+    out = refresh_dealer(sess, suite, kps, pkp, remaining, rp)
+    if out is None:
+        return
+    kps3, pkp3 = out[0], out[1]
+    outsider = make_ids(sess, suite, 1, "scalar")[0]
+    for newcomer, what in ((gone, "a participant removed by an earlier refresh"), (outsider, "an outsider")):
+        if newcomer in remaining:
+            continue
+        group = remaining + [newcomer]
+        d = Dkg(sess, suite, 4, 2, group, refresh=True).part1()
+        if d.ok:
+            d.part2()
+        if not d.ok:
+            continue
+        for me in remaining[:2]:
+            req = "refresh_dkg3 %s sp2=%s r1=%s r2=%s pkp=%s kp=%s" % (suite, d.sp2[me], r1_str(d.pkg1, me), r2_str(d.r2, me), pkp3, kps3[me])
+            r3 = sess.call(req, EXACT, "refresh_dkg3-rejoin")
+            sess.oracle(r3.err == "UnknownIdentifier", "a distributed refresh including %s (not in the current public key package) was not refused: %s" % (what, r3.raw[:80]), rp() + [req])
+            sess.case("rejoin|" + req, nontrivial=True)
+        sess.count("rejoin:" + ("removed" if newcomer == gone else "outsider"))
 
 
 def rejections(sess, suite):
@@ -219,6 +255,8 @@ def rejections(sess, suite):
 
 
 def generate(sess):
+    for suite_ in TOY_SUITES + REAL_SUITES:
+        rejoin(sess, suite_)
     rng = sess.rng
     thorough = sess.tier != "quick"
     for suite in TOY_SUITES:
